@@ -23,6 +23,7 @@ func checkC07(c *Ctx, r *Report, tier string) {
 	r.Rule("C07.R3", "the level-0 beam is max(ef, k): the ef argument of the level-0 searchLevel call in Search is MaxInt(config.ef, int(k))", 1)
 	r.Rule("C07.R4", "no ghost vertices: a rejected insert (existing id) has not linked anything into the graph — otherwise a second vertex with the same id competes in every beam and pushes out a true neighbour", 3)
 	noMutationBeforeErrorReturn(c, r, "C07.R4")
+	visitedSetSeeded(c, r, "C07.R4")
 	if len(x.missing) > 0 {
 		r.Unk("C07.R1", "index", "anchors", "-", "cannot resolve: "+strings.Join(x.missing, ", "))
 		return
@@ -618,6 +619,7 @@ func checkC10(c *Ctx, r *Report, tier string) {
 	}
 	r.Rule("C10.R5", "the ordered partition list (index = routing result) is never built from map iteration", 1)
 	partitionOrderStable(c, r, "C10.R5")
+	routingTableNotMutated(c, r, "C10.R4")
 	// len(partitions) from the count
 	if nd := c.Func("storage", "newDataset"); nd != nil {
 		ok := false
